@@ -1,6 +1,7 @@
 # Hand-written breaking edits used by tools/sensitivity.py.  expect=1: the property is broken and the quick check
 # must report a violation.  expect=0: a benign edit (property still holds): the check must stay quiet.
 TL = "src/cpp/thread-link.cpp"
+UH = "src/cpp/undo-history.cpp"
 MUTANTS = [
  dict(id="C06", name="publish_before_copy", edits=[(TL,
   """    const off_t  next_write = (ring->write + len)%ring->size;
@@ -53,4 +54,21 @@ MUTANTS = [
  dict(id="C06", name="fit_test_strict_in_write_only", edits=[(TL, "    if(ring_write_size(ring) >= len)\n        ring_write(ring,write_buffer,len);\n}\n\nvoid ThreadLink::writeArray", "    if(ring_write_size(ring) > len)\n        ring_write(ring,write_buffer,len);\n}\n\nvoid ThreadLink::writeArray")]),
  dict(id="C06", name="drop_check_removed", edits=[(TL, "    if(ring_write_size(ring) >= len)\n        ring_write(ring,write_buffer,len);\n}\n\nvoid ThreadLink::writeArray", "    ring_write(ring,write_buffer,len);\n}\n\nvoid ThreadLink::writeArray")]),
  dict(id="C06", name="write_size_stale_read_swap", edits=[(TL, "    const off_t  next_write = (ring->write + len)%ring->size;", "    const off_t  next_write = (ring->write + len + (len==12?4:0))%ring->size;")]),
+
+ # ---- C15 undo history
+ dict(id="C15", name="merge_window_gt3", edits=[(UH, "        if(difftime(now, history[i].first) > 2)", "        if(difftime(now, history[i].first) > 3)")]),
+ dict(id="C15", name="merge_window_ge2", edits=[(UH, "        if(difftime(now, history[i].first) > 2)", "        if(difftime(now, history[i].first) >= 2)")]),
+ dict(id="C15", name="merge_window_gt1", edits=[(UH, "        if(difftime(now, history[i].first) > 2)", "        if(difftime(now, history[i].first) > 1)")]),
+ dict(id="C15", name="merge_scan_stops_at_stale", edits=[(UH, "        if(difftime(now, history[i].first) > 2)\n            continue;", "        if(difftime(now, history[i].first) > 2)\n            break;")]),
+ dict(id="C15", name="merge_keeps_new_old_value", edits=[(UH, "            args[1] = rtosc_argument(history[i].second,1);", "            args[1] = rtosc_argument(msg,1);")]),
+ dict(id="C15", name="merge_does_not_refresh_stamp", edits=[(UH, "            history[i].first = now;\n", "")]),
+ dict(id="C15", name="cap_off_by_one", edits=[(UH, "        if(impl->history.size() > impl->max_history_size)", "        if(impl->history.size() >= impl->max_history_size)")]),
+ dict(id="C15", name="evict_keeps_cursor", edits=[(UH, "            impl->history.pop_front();\n            impl->history_pos--;", "            impl->history.pop_front();")]),
+ dict(id="C15", name="no_tail_truncation", edits=[(UH, "        impl->history.resize(impl->history_pos);", "        ;")]),
+ dict(id="C15", name="seek_clamp_hi_wrong", edits=[(UH, "        distance  = impl->history.size() - impl->history_pos;", "        distance  = impl->history.size() - impl->history_pos - (impl->history.size() > 3 ? 1 : 0);")]),
+ dict(id="C15", name="seek_clamp_lo_missing", edits=[(UH, "    if(dest < 0)\n        distance -= dest;", "    if(dest < -1)\n        distance -= dest;")]),
+ dict(id="C15", name="replay_uses_old_value", edits=[(UH, "    rtosc_arg_t arg = rtosc_argument(msg,2);", "    rtosc_arg_t arg = rtosc_argument(msg,1);")]),
+ dict(id="C15", name="rewind_order_oldest_first", edits=[(UH, "        while(distance++)\n            impl->rewind(impl->history[--impl->history_pos].second);",
+      "        { long n = -distance; long base = impl->history_pos - n; for(long q=0;q<n;++q) impl->rewind(impl->history[base+q].second); impl->history_pos = base; }")]),
+ dict(id="C15", name="merge_only_newest_entry", edits=[(UH, "    for(int i=history_pos-1; i>=0; --i) {", "    for(int i=history_pos-1; i>=history_pos-1; --i) {")]),
 ]
